@@ -36,8 +36,108 @@ def mulP (a b : Nat) : Nat :=
   cond (Nat.beq a 0 || Nat.beq b 0) 0
     (lkp rsExpPacked (Nat.add (lkp rsLogPacked a) (lkp rsLogPacked b)))
 
+/-- `clmul` with the recursion unrolled (the kernel evaluates this form ten times faster) -/
+def clmulU (a b : Nat) : Nat :=
+  Nat.xor (Nat.mul (bitAt a 7) (Nat.shiftLeft b 7)) (Nat.xor (Nat.mul (bitAt a 6) (Nat.shiftLeft b 6))
+  (Nat.xor (Nat.mul (bitAt a 5) (Nat.shiftLeft b 5)) (Nat.xor (Nat.mul (bitAt a 4) (Nat.shiftLeft b 4))
+  (Nat.xor (Nat.mul (bitAt a 3) (Nat.shiftLeft b 3)) (Nat.xor (Nat.mul (bitAt a 2) (Nat.shiftLeft b 2))
+  (Nat.xor (Nat.mul (bitAt a 1) (Nat.shiftLeft b 1)) (Nat.xor (Nat.mul (bitAt a 0) (Nat.shiftLeft b 0)) 0)))))))
+
+def red (m k p : Nat) : Nat := Nat.xor p (Nat.mul (bitAt p (k + 8)) (Nat.shiftLeft m k))
+
+def clmulModU (m a b : Nat) : Nat :=
+  red m 0 (red m 1 (red m 2 (red m 3 (red m 4 (red m 5 (red m 6 (clmulU a b)))))))
+
+theorem clmulMod_eq_U (m a b : Nat) : clmulMod m a b = clmulModU m a b := rfl
+
 /-- one case of the multiplication enumeration: the pair `(n / 256, n % 256)` -/
 def mulCase (n : Nat) : Bool :=
-  Nat.beq (mulP (Nat.div n 256) (Nat.mod n 256)) (clmulMod 285 (Nat.div n 256) (Nat.mod n 256))
+  Nat.beq (mulP (Nat.div n 256) (Nat.mod n 256)) (clmulModU 285 (Nat.div n 256) (Nat.mod n 256))
+
+/-! ### finite facts about the extracted tables -/
+
+/-- the packed tables are the lists -/
+def packedOk : Bool :=
+  allBin (fun i => Nat.beq (lkp rsExpPacked i) (expAt i)) 9 0 &&
+  allBin (fun a => Nat.beq (lkp rsLogPacked a) (logAt a)) 8 0
+
+theorem packed_ok : packedOk = true := by decide +kernel
+
+/-- sizes; logarithms of non-zero octets are `≤ 254` and inverted by the exponent table; the
+exponent table has period 255 on the indices the code can reach (`≤ 508`), holds non-zero octets
+there, and is inverted by the logarithm table on one period -/
+def tablesOk : Bool :=
+  Nat.beq rsExp.length 512 && Nat.beq rsLog.length 256 &&
+  allBin (fun a => Nat.beq a 0 || (Nat.ble (logAt a) 254 && Nat.beq (expAt (logAt a)) a)) 8 0 &&
+  allBin (fun k => Nat.beq k 255 ||
+    (Nat.beq (expAt (k + 255)) (expAt k) && Nat.ble 1 (expAt k) && Nat.ble (expAt k) 255 &&
+      Nat.beq (logAt (expAt k)) k)) 8 0
+
+theorem tables_ok : tablesOk = true := by decide +kernel
+
+theorem exp_length : rsExp.length = 512 := by
+  have h := tables_ok
+  simp only [tablesOk, Bool.and_eq_true, Nat.beq_eq_true_eq] at h
+  exact h.1.1.1
+
+theorem log_length : rsLog.length = 256 := by
+  have h := tables_ok
+  simp only [tablesOk, Bool.and_eq_true, Nat.beq_eq_true_eq] at h
+  exact h.1.1.2
+
+theorem log_facts (a : Nat) (h0 : a ≠ 0) (ha : a < 256) : logAt a ≤ 254 ∧ expAt (logAt a) = a := by
+  have h := tables_ok
+  simp only [tablesOk, Bool.and_eq_true] at h
+  have := allBin_spec _ _ _ h.1.2 a (Nat.zero_le _) (by simpa using ha)
+  simp only [Bool.or_eq_true, Bool.and_eq_true, Nat.beq_eq_true_eq, Nat.ble_eq] at this
+  rcases this with h | h
+  · exact absurd h h0
+  · exact h
+
+theorem exp_facts (k : Nat) (hk : k < 255) :
+    expAt (k + 255) = expAt k ∧ 1 ≤ expAt k ∧ expAt k < 256 ∧ logAt (expAt k) = k := by
+  have h := tables_ok
+  simp only [tablesOk, Bool.and_eq_true] at h
+  have := allBin_spec _ _ _ h.2 k (Nat.zero_le _) (by simp; omega)
+  simp only [Bool.or_eq_true, Bool.and_eq_true, Nat.beq_eq_true_eq, Nat.ble_eq] at this
+  rcases this with h | h
+  · omega
+  · exact ⟨h.1.1.1, h.1.1.2, by omega, h.2⟩
+
+theorem lkp_le (T i : Nat) : lkp T i ≤ 255 := Nat.and_le_right
+
+theorem lkp_exp (i : Nat) (h : i < 512) : lkp rsExpPacked i = expAt i := by
+  have hp := packed_ok
+  simp only [packedOk, Bool.and_eq_true] at hp
+  have := allBin_spec _ _ _ hp.1 i (Nat.zero_le _) (by simpa using h)
+  simpa using this
+
+theorem lkp_log (a : Nat) (h : a < 256) : lkp rsLogPacked a = logAt a := by
+  have hp := packed_ok
+  simp only [packedOk, Bool.and_eq_true] at hp
+  have := allBin_spec _ _ _ hp.2 a (Nat.zero_le _) (by simpa using h)
+  simpa using this
+
+theorem mulP_eq (a b : Nat) (ha : a < 256) (hb : b < 256) : mulP a b = logMultiply a b := by
+  unfold mulP logMultiply
+  by_cases h : a = 0 ∨ b = 0
+  · rcases h with h | h <;> simp [h]
+  · have h' : (Nat.beq a 0 || Nat.beq b 0) = false := by
+      simp only [not_or] at h
+      simp [h.1]
+    rw [h', if_neg h, cond_false]
+    have h1 := lkp_le rsLogPacked a
+    have h2 := lkp_le rsLogPacked b
+    rw [lkp_exp _ (by show lkp rsLogPacked a + lkp rsLogPacked b < 512; omega), lkp_log a ha, lkp_log b hb]
+    rfl
+
+/-- what one enumerated case says -/
+theorem mulCase_spec (a b : Nat) (ha : a < 256) (hb : b < 256) (h : mulCase (256 * a + b) = true) :
+    logMultiply a b = clmulMod fieldPoly a b := by
+  have h1 : Nat.div (256 * a + b) 256 = a := by show (256 * a + b) / 256 = a; omega
+  have h2 : Nat.mod (256 * a + b) 256 = b := by show (256 * a + b) % 256 = b; omega
+  simp only [mulCase, h1, h2] at h
+  rw [← mulP_eq a b ha hb, Nat.eq_of_beq_eq_true h, clmulMod_eq_U]
+  rfl
 
 end Dmr.Rs
